@@ -559,3 +559,44 @@ func H_M6_lazy_longvarint() {
 	}
 	mLazyEager(b)
 }
+
+// H_C18_lazy_publish_order: the ordering half of lazy publication that a sequential run cannot
+// observe. A lazily decoded VNode whose lazy child arrives in one or two non-contiguous records
+// is forced by lazyUnmarshal; the engine logs every atomic pointer write (publication) made by
+// that call together with a snapshot of everything reachable from the published pointer that the
+// call itself built. Afterwards nothing in those snapshots may have been written by a plain
+// store: a concurrent reader that obtains the pointer sees the finished submessage. A second
+// lazyUnmarshal (the losing racer) must leave the published instance in place and untouched.
+//
+//verif:props=C18,C17 bounds=VNode;child(body<=2)[+int-field+child(body<=2)];one-forcing-call+one-losing-racer maxsteps=10000000 need=forced
+func H_C18_lazy_publish_order() {
+	n1 := nd.Int(0, 2)
+	b := append([]byte{0x4a, byte(n1)}, nd.BytesN(n1)...)
+	if nd.Bool() {
+		n2 := nd.Int(0, 2)
+		b = append(b, 0x08, nd.Byte())
+		b = append(b, 0x4a, byte(n2))
+		b = append(b, nd.BytesN(n2)...)
+	}
+	mi := vMI_Node()
+	lz := pointer{p: unsafe.Pointer(new(VNode))}
+	ol := unmarshalOptions{resolver: protoregistry.GlobalTypes, depth: protowire.DefaultRecursionLimit}
+	_, err := mi.unmarshalPointer(b, lz, 0, ol)
+	nd.Assume(err == nil)
+	x := (*VNode)(lz.p)
+	nd.Assume(x.XXX_presence[0]&1 != 0 && x.xxx_hidden_Nested == nil) // child present and still lazy
+	nd.PublishLogStart()
+	mi.lazyUnmarshal(lz, 9)
+	nd.Reach("forced")
+	first := x.xxx_hidden_Nested
+	nd.Assert(first != nil, "forcing publishes the submessage")
+	nd.Assert(nd.Publications() >= 1, "the submessage pointer is written atomically")
+	nd.Assert(nd.PublishedFrozen(), "ordering: the lazily decoded submessage is complete when its pointer is published")
+	// the losing racer: a second decode of the same field must not replace or modify the instance
+	before, _ := mCanon(mi, pointer{p: unsafe.Pointer(first)})
+	nd.PublishLogStart()
+	mi.lazyUnmarshal(lz, 9)
+	nd.Assert(x.xxx_hidden_Nested == first, "all readers obtain the same submessage instance")
+	after, _ := mCanon(mi, pointer{p: unsafe.Pointer(first)})
+	nd.Assert(mEq(before, after), "a losing racer leaves the published instance unchanged")
+}
